@@ -31,6 +31,9 @@
 #include "vf/vf.h"
 
 #ifndef VF_HTTP_BOUNDED
+#ifdef VF_HTTP_GHOST_K
+extern size_t vf_k;
+#endif
 void *
 memchr(const void *s, int c, size_t n) {
 	__CPROVER_assert(n == 0 || __CPROVER_r_ok(s, n), "memchr: span readable");
@@ -40,6 +43,15 @@ memchr(const void *s, int c, size_t n) {
 	size_t k = nondet_size_t();
 	__CPROVER_assume(k < n);
 	__CPROVER_assume(((const unsigned char *)s)[k] == (unsigned char)c);
+#ifdef VF_HTTP_GHOST_K
+	/* "first occurrence", instantiated at the one ghost offset vf_k the postcondition of the
+	 * unbounded content variants talks about (the fact holds for every offset before s+k) */
+	{
+		size_t vf_o = (size_t)__CPROVER_POINTER_OFFSET(s);
+		if (vf_k >= vf_o && vf_k - vf_o < k)
+			__CPROVER_assume(((const unsigned char *)s)[vf_k - vf_o] != (unsigned char)c);
+	}
+#endif
 	return ((void *)((const unsigned char *)s + k));
 }
 
@@ -58,6 +70,15 @@ memmem(const void *h, size_t hn, const void *nd, size_t nn) {
 		__CPROVER_assume(((const unsigned char *)h)[k + nn - 1] ==
 		    ((const unsigned char *)nd)[nn - 1]);
 	}
+#ifdef VF_HTTP_GHOST_K
+	/* "first occurrence" of a 2-byte needle (CRLF), instantiated at the ghost offset vf_k */
+	if (nn == 2) {
+		size_t vf_o = (size_t)__CPROVER_POINTER_OFFSET(h);
+		if (vf_k >= vf_o && vf_k - vf_o < k)
+			__CPROVER_assume(!(((const unsigned char *)h)[vf_k - vf_o] == ((const unsigned char *)nd)[0] &&
+			    ((const unsigned char *)h)[vf_k - vf_o + 1] == ((const unsigned char *)nd)[1]));
+	}
+#endif
 	return ((void *)((const unsigned char *)h + k));
 }
 
@@ -88,11 +109,36 @@ memcmp(const void *a, const void *b, size_t n) {
 
 /* reads at most n bytes of each string (stops at a NUL): requiring n readable bytes of
  * both is the caller-side discipline of mem_cmpi(), which passes spans, not C strings */
+#ifdef VF_HTTP_GHOST_K
+/* ghost record of the last successful compare (unbounded content variant of header lookup):
+ * offset of the first operand in its object, compared length (n, or the position of the NUL
+ * that both operands share), and the fact "equal ignoring case" instantiated at ghost vf_j */
+extern size_t vf_cmp_off, vf_cmp_len, vf_j;
+static inline unsigned char
+vf_lcase(unsigned char c) {
+	return ((c >= 'A' && c <= 'Z') ? (unsigned char)(c | 32) : c);
+}
+#endif
 int
 strncasecmp(const char *a, const char *b, size_t n) {
+	int r;
+
 	__CPROVER_assert(n == 0 || (__CPROVER_r_ok(a, n) && __CPROVER_r_ok(b, n)),
 	    "strncasecmp: spans readable");
-	return (nondet_int());
+	r = nondet_int();
+#ifdef VF_HTTP_GHOST_K
+	if (r == 0) {
+		size_t z = nondet_size_t();	/* compared length */
+		__CPROVER_assume(n == 0 || (__CPROVER_r_ok(a, n) && __CPROVER_r_ok(b, n)));
+		__CPROVER_assume(z <= n);
+		__CPROVER_assume(z == n || (a[z] == 0 && b[z] == 0));
+		if (vf_j < z)
+			__CPROVER_assume(vf_lcase((unsigned char)a[vf_j]) == vf_lcase((unsigned char)b[vf_j]));
+		vf_cmp_off = (size_t)__CPROVER_POINTER_OFFSET(a);
+		vf_cmp_len = z;
+	}
+#endif
+	return (r);
 }
 
 #ifndef VF_HTTP_BUILTIN_MEMMOVE
